@@ -6,11 +6,18 @@ LEVEL = 'proof'; TRUSTED = engcommon.TRUSTED_ENGINE; ASSUMPTIONS = engcommon.ASS
 def run(ctx):
     rnd = random.Random(ctx.seed * 11 + 3)
     n = 700 if ctx.quick() else 6000
-    pairs = [ec.gen_dyndep_pair(rnd, 'C11_p%d' % i) for i in range(n)]
-    for i in range(40):
-        a = ec.motif_dyndep_not_ready(rnd, 'C11_nr%d_dd' % i)
-        pairs.append((a, a.transformed('C11_nr%d_inl' % i, engine.inline_dyndep)))
-    inv = [h for h in (ec.gen_dyndep_invalid(rnd, 'C11_i%d' % i) for i in range(2 * n)) if h]
+    if ctx.replay:
+        hs = ec.load_replay(ctx.replay)
+        if not hs:
+            ctx.violation('replay-unsupported', open(ctx.replay).read(), 'this replay file carries no generator ground truth: inspect it with tools/showtrace %s' % ctx.replay, no_input=True); return
+        pairs = [(hs[i], hs[i + 1]) for i in range(0, len(hs) - 1, 2) if hs[i].sid.endswith('_dd')]
+        inv = [h for h in hs if hasattr(h, 'dd_kind')]
+    else:
+        pairs = [ec.gen_dyndep_pair(rnd, 'C11_p%d' % i) for i in range(n)]
+        for i in range(40):
+            a = ec.motif_dyndep_not_ready(rnd, 'C11_nr%d_dd' % i)
+            pairs.append((a, a.transformed('C11_nr%d_inl' % i, engine.inline_dyndep)))
+        inv = [h for h in (ec.gen_dyndep_invalid(rnd, 'C11_i%d' % i) for i in range(2 * n)) if h]
     known = {k.get('id') for k in ctx.known_list if k.get('property') == 'C11'}
     hists = [x for p in pairs for x in p] + inv
     rc, tr, err, out = ec.run_hists(hists)
@@ -19,6 +26,7 @@ def run(ctx):
     nb = 0; nontriv = set(); kinds = {}
     for a, b in pairs:
         pa, pb = ec.pair(a, tr.get(a.sid, [])), ec.pair(b, tr.get(b.sid, []))
+        pending = {}
         for k, ((sa, ba), (sb, bb)) in enumerate(zip(pa, pb)):
             nb += 1
             if ba.started: nontriv.add((a.sid, k))
@@ -49,8 +57,29 @@ def run(ctx):
                 fb_ = {n: c for n, (m, c) in bb.files.items() if not n.endswith('.d') and n != 'build.ninja'}
                 if roots and extra <= (roots | below) and not (set(bb.started) - set(ba.started)) and fa_ == fb_:
                     ctx.known_finding('id=dyndep-restat-known-late %s build %d: %s' % (a.sid, k, diffs[0][:200])); diffs = []
+            if diffs and 'restat-prune-ignores-recorded-deps' in known and ba.exit == 0 and bb.exit == 0:
+                # listed finding (same root cause as under C02): a depfile/deps statement that is dirty at scan time only through an input
+                # has its recorded dependencies probed, not loaded; after a restat no-op upstream it is pruned although a recorded
+                # dependency is newer.  The two variants can differ in WHEN the upstream statement is known to be dirty (the dyndep file
+                # adds the changed input only once it is loaded), so one of them prunes the statement and the other re-runs it.
+                for (hm, sm, bm), (hl, sl, bl) in (((a, sa, ba), (b, sb, bb)), ((b, sb, bb), (a, sa, ba))):
+                    extra = set(bm.started) - set(bl.started)
+                    if not extra or set(bl.started) - set(bm.started): continue
+                    if pending.get(hm.sid) and extra <= pending[hm.sid]:
+                        # the follow-up of the same finding: the variant that pruned re-runs those statements in its next build
+                        ctx.known_finding('id=restat-prune-ignores-recorded-deps %s build %d: the statements pruned in the previous build are re-run now' % (hm.sid, k))
+                        pending.pop(hm.sid); diffs = []; break
+                    gl = sl.g; pl = gl.producer()
+                    roots = {o for o in extra if o in pl and pl[o].hidden and (pl[o].deps or pl[o].depfile)}
+                    below = set()
+                    for o in roots: below |= {x.out0 for x in gl.edges if x.idx in gl.dependents_of(pl[o])}
+                    restat_ran = any(o in pl and gl.eff_restat(pl[o]) for o in bl.started)
+                    if roots and extra <= (roots | below) and restat_ran:
+                        ctx.known_finding('id=restat-prune-ignores-recorded-deps %s build %d: %s pruned after a restat no-op in one variant of the pair although a recorded dependency is newer' % (a.sid, k, sorted(roots)))
+                        pending[hl.sid] = roots | below
+                        diffs = []; break
             if diffs:
-                ctx.violation('dyndep-vs-inlined', a.text() + '# ---- inlined variant\n' + b.text(), '%s build %d: %s' % (a.sid, k, '; '.join(diffs[:3])))
+                ctx.violation('dyndep-vs-inlined', ec.replay_text(a) + '# ---- inlined variant\n' + ec.replay_text(b), '%s build %d: %s' % (a.sid, k, '; '.join(diffs[:3])))
                 break
     for h in inv:
         prs = ec.pair(h, tr.get(h.sid, []))
@@ -59,7 +88,7 @@ def run(ctx):
             nb += 1
             if h.dd_reason is None:
                 if b.exit != 0 and 'dyndep' in (b.err or '') and h.dd_kind == 'valid':
-                    ctx.violation('valid-rejected', h.text(), '%s: valid dyndep file rejected: %s' % (h.sid, b.err[:120]))
+                    ctx.violation('valid-rejected', ec.replay_text(h), '%s: valid dyndep file rejected: %s' % (h.sid, b.err[:120]))
                 continue
             nontriv.add((h.sid, 0))
             if b.exit == 0:
@@ -67,7 +96,7 @@ def run(ctx):
                 dd = sorted(h.g.dd_info)[0]; t = h.g.sources.get(dd, '')
                 if 'dyndep-truncated-after-pipe' in known and h.dd_reason in ('no final newline', 'empty implicit outputs', 'empty implicit inputs') and t.rstrip(' ').endswith('|'):
                     ctx.known_finding('id=dyndep-truncated-after-pipe a dyndep file ending right after "|" is accepted: %r' % t[-40:])
-                else: ctx.violation('invalid-accepted', h.text(), txt)
+                else: ctx.violation('invalid-accepted', ec.replay_text(h), txt)
     # file-level: extracted parser+loader model vs the real DyndepParser/DyndepLoader (tools/dyndepmodel.py)
     ddstats = {}
     if ctx.model:
